@@ -1,22 +1,13 @@
 /-
-C14 for the gcno/gcda reader: line counts and `finalize` on well-formed shapes.  Every index
-expression is in range (`idxBlock`, `idxArc`, `idxList` are unreachable); the sums crash only by
-overflow.  For the cycle search (`look_for_circuit`, a variant of Johnson's algorithm) two things are
-NOT excluded here: `underflow` in `get_cycle_count` (it needs "no arc twice on the path") and
-exhaustion of `circuitFuel` (it needs "no block twice on the stack"); both follow from the
-stack invariant of Johnson's algorithm, which is not proved.  `CycSites` / `True` record that.
+C14 for the gcno/gcda reader: the pieces of the line counts and of `finalize` that do not involve
+the cycle search, on well-formed shapes: every index expression is in range, the sums crash only
+by overflow; `lines_to_block` names only blocks of the function.  The cycle search and the
+assembled `finalize` are in GcnoSafeJohnson.lean.
 -/
 import GrcovModel.Lemmas.GcnoSafeCount
 import GrcovModel.Lemmas.GcnoStruct
 namespace Grcov.Gcno
 open Outcome AList
-
-/-- the crash sites not excluded for the cycle search -/
-abbrev CycSites : Site → Prop := fun s => s = .overflow ∨ s = .underflow
-
-theorem Outcome.Sat.toCyc {α : Type} {o : Outcome α} {Q : α → Prop} (h : Sat OvOnly False o Q) :
-    Sat CycSites True o Q :=
-  h.weaken (fun _ hs => Or.inl hs) (fun hf => hf.elim)
 
 theorem Outcome.Sat.ofNo {α : Type} {C : Site → Prop} {D : Prop} {o : Outcome α} {Q : α → Prop}
     (h : Sat NoSite False o Q) : Sat C D o Q :=
@@ -94,159 +85,6 @@ theorem position_lt {l : List Nat} {x i : Nat} (h : position l x = some i) : i <
   · simp only [Option.some.injEq] at h; omega
   · cases h
 
-/-- `unblock` keeps `blocked` and `block_lists` aligned (so `block_lists[i]` is in range), removes
-at least nothing, and its depth fuel suffices: every level removes an entry of `blocked` -/
-theorem unblock_sat : ∀ (fuel b : Nat) (bl : List Nat) (ls : List (List Nat)),
-    bl.length = ls.length → bl.length < fuel →
-    Sat NoSite False (unblock fuel b (bl, ls)) fun r =>
-      r.1.length = r.2.length ∧ r.1.length ≤ bl.length := by
-  intro fuel
-  induction fuel with
-  | zero => intro b bl ls _ h; omega
-  | succ fuel ih =>
-    intro b bl ls hlen hfuel
-    simp only [unblock]
-    cases hp : position bl b with
-    | none => exact ⟨hlen, Nat.le_refl _⟩
-    | some i =>
-      have hi := position_lt hp
-      simp only
-      rw [List.getElem?_eq_getElem (by omega : i < ls.length)]
-      simp only
-      refine (Sat.foldl (C := NoSite) (D := False)
-        (Inv := fun r : List Nat × List (List Nat) =>
-          r.1.length = r.2.length ∧ r.1.length ≤ bl.length - 1) _ _ ?_ ?_).mono ?_
-      · simp only [List.length_eraseIdx]
-        rw [if_pos hi, if_pos (by omega : i < ls.length)]
-        omega
-      · intro r b' _ hr
-        obtain ⟨bl', ls'⟩ := r
-        refine (ih b' bl' ls' hr.1 (by have := hr.2; simp only at this; omega)).mono ?_
-        intro r' hr'
-        have := hr.2
-        simp only at this hr'
-        omega
-      · intro r hr; omega
-
-theorem noteBlocked_sat (arcs : List Arc) (bs : List Nat) (start v : Nat) : ∀ (es : List Nat) (s : CS),
-    (∀ e ∈ es, e < arcs.length) → s.blocked.length = s.lists.length →
-    Sat NoSite False (noteBlocked arcs bs start v es s) fun r =>
-      r.blocked.length = r.lists.length := by
-  intro es
-  induction es with
-  | nil => intro s _ hs; exact hs
-  | cons e es ih =>
-    intro s h hs
-    have hes : ∀ e ∈ es, e < arcs.length := fun e he => h e (List.mem_cons_of_mem _ he)
-    simp only [noteBlocked]
-    rw [List.getElem?_eq_getElem (h e (by simp))]
-    simp only
-    split
-    · cases hp : position s.blocked (arcs[e]'(h e (by simp))).dst with
-      | none => exact ih s hes hs
-      | some i =>
-        have hi := position_lt hp
-        simp only
-        rw [List.getElem?_eq_getElem (by omega : i < s.lists.length)]
-        simp only
-        split
-        · exact ih s hes hs
-        · exact ih _ hes (by simp [hs])
-    · exact ih s hes hs
-
-theorem cycleCount_sat (cyc : Nat → Nat) (path : List Nat) :
-    Sat CycSites True (cycleCount cyc path) fun _ => True := by
-  unfold cycleCount
-  apply Sat.bind
-  refine (Sat.foldl (C := CycSites) (D := True) (Inv := fun _ => True) _ _ trivial ?_).mono
-    fun _ _ => trivial
-  intro cy e _ _
-  unfold subCycle
-  split
-  · exact Or.inr rfl
-  · trivial
-
-/-- the cycle search on a well-formed shape: every index is in range; what is not excluded is
-named by `CycSites` (the known overflow, and `underflow`) and `True` (depth fuel) -/
-theorem lookForCircuit_sat {f : Func} (hf : f.WF) (bs : List Nat) (start : Nat) :
-    ∀ (fuel v : Nat) (s : CS), v < f.blocks.length → s.blocked.length = s.lists.length →
-    Sat CycSites True (lookForCircuit f bs start fuel v s) fun r =>
-      r.1.blocked.length = r.1.lists.length := by
-  intro fuel
-  induction fuel with
-  | zero => intro v s _ _; trivial
-  | succ fuel ih =>
-    intro v s hv hs
-    simp only [lookForCircuit]
-    rw [List.getElem?_eq_getElem hv]
-    have hblk := hf.ids _ (List.getElem_mem hv)
-    simp only
-    apply Sat.bind
-    refine (Sat.foldl (C := CycSites) (D := True)
-      (Inv := fun acc : CS × Bool × Nat => acc.1.blocked.length = acc.1.lists.length) _ _ ?_ ?_).mono ?_
-    · simp [hs]
-    · intro acc e he hacc
-      obtain ⟨s1, found, count⟩ := acc
-      have hacc' : s1.blocked.length = s1.lists.length := hacc
-      have hlt := hblk.2 e he
-      simp only [circuitStep]
-      rw [List.getElem?_eq_getElem hlt]
-      simp only
-      split
-      · split
-        · apply Sat.bind
-          refine (cycleCount_sat _ _).mono fun ⟨cy, c⟩ _ => ?_
-          simp only
-          split
-          · exact Or.inl rfl
-          · exact hacc
-        · split
-          · apply Sat.bind
-            refine (ih _ { s1 with path := s1.path ++ [e] }
-              (hf.arcs _ (List.getElem_mem hlt)).2 hacc').mono fun ⟨s', f', c⟩ hs' => ?_
-            simp only
-            split
-            · exact Or.inl rfl
-            · exact hs'
-          · exact hacc
-      · exact hacc
-    · intro ⟨s2, found, count⟩ hs2
-      simp only at hs2 ⊢
-      split
-      · apply Sat.bind
-        refine (unblock_sat (s2.blocked.length + 2) v _ _ hs2 (by omega)).ofNo.mono fun ⟨bl, ls⟩ hr => ?_
-        exact hr.1
-      · apply Sat.bind
-        exact (noteBlocked_sat _ _ _ _ _ _ hblk.2 hs2).ofNo.mono fun s3 hs3 => hs3
-
-theorem cyclesCount_sat {f : Func} (hf : f.WF) (fuel : Nat) (bs : List Nat) (cyc : Nat → Nat)
-    (hbs : ∀ b ∈ bs, b < f.blocks.length) :
-    Sat CycSites True (cyclesCount f fuel bs cyc) fun _ => True := by
-  unfold cyclesCount
-  refine Sat.foldl (Inv := fun _ => True) _ _ trivial ?_
-  intro acc b hb _
-  unfold cyclesStep
-  apply Sat.bind
-  refine (lookForCircuit_sat hf bs b fuel b _ (hbs b hb) rfl).mono fun ⟨s, _, c⟩ _ => ?_
-  simp only
-  split
-  · exact Or.inl rfl
-  · trivial
-
-theorem getLineCount_sat {f : Func} (hf : f.WF) (cnt : Nat → Nat) (bs : List Nat) (cyc : Nat → Nat)
-    (hbs : ∀ b ∈ bs, b < f.blocks.length) :
-    Sat CycSites True (getLineCount f cnt bs cyc) fun _ => True := by
-  unfold getLineCount
-  apply Sat.bind
-  refine (Sat.foldl (C := CycSites) (D := True) (Inv := fun _ => True) _ _ trivial
-    (fun acc b hb _ => (lineEntryStep_sat hf cnt bs acc (hbs b hb)).toCyc)).mono fun ⟨cyc', count⟩ _ => ?_
-  apply Sat.bind
-  refine (cyclesCount_sat hf _ bs cyc' hbs).mono fun ⟨cyc'', c⟩ _ => ?_
-  simp only
-  split
-  · exact Or.inl rfl
-  · trivial
-
 /-! ## `lines_to_block` only names blocks of the function -/
 
 theorem linesToBlockLines_lt (n N : Nat) (hn : n < N) : ∀ (ls : List Nat) (m : List (Nat × List Nat)),
@@ -288,35 +126,7 @@ theorem linesToBlockGo_lt (N : Nat) : ∀ (bl : List Block) (n : Nat) (m : List 
 theorem linesToBlock_lt (f : Func) : ∀ p ∈ linesToBlock f, ∀ b ∈ p.2, b < f.blocks.length :=
   linesToBlockGo_lt _ _ 0 [] (by omega) (fun p hp => by simp at hp)
 
-/-! ## `add_line_count` and `finalize` -/
-
-theorem lineCounts_sat {f : Func} (hf : f.WF) (c : Cnt) : ∀ (m : List (Nat × List Nat))
-    (cyc : Nat → Nat), (∀ p ∈ m, ∀ b ∈ p.2, b < f.blocks.length) →
-    Sat CycSites True (lineCounts f c m cyc) fun _ => True := by
-  intro m
-  induction m with
-  | nil => intro cyc _; trivial
-  | cons p m ih =>
-    intro cyc h
-    obtain ⟨l, bs⟩ := p
-    have hm : ∀ p ∈ m, ∀ b ∈ p.2, b < f.blocks.length := fun p hp => h p (List.mem_cons_of_mem _ hp)
-    have hbs : ∀ b ∈ bs, b < f.blocks.length := h (l, bs) (by simp)
-    simp only [lineCounts]
-    split
-    · apply Sat.bind
-      exact (ih cyc hm).mono fun _ _ => trivial
-    · apply Sat.bind
-      refine (getLineCount_sat hf c.arc bs cyc hbs).mono fun ⟨cyc', n⟩ _ => ?_
-      apply Sat.bind
-      exact (ih cyc' hm).mono fun _ _ => trivial
-
-theorem addLineCount_sat {f : Func} (hf : f.WF) (c : Cnt) :
-    Sat CycSites True (addLineCount f c) fun _ => True := by
-  unfold addLineCount
-  split
-  · apply Sat.bind
-    exact (lineCounts_sat hf c _ _ (linesToBlock_lt f)).mono fun _ _ => trivial
-  · trivial
+/-! ## pieces of `finalize` -/
 
 theorem mergeLines_sat : ∀ (ls m : List (Nat × Nat)),
     Sat OvOnly False (mergeLines m ls) fun _ => True := by
@@ -379,39 +189,5 @@ theorem addBranches_sat {f : Func} (hf : f.WF) (cnt : Nat → Nat) (ex : Bool) :
       split
       · exact ih _ hbl
       · exact ih _ hbl
-
-theorem finStep_sat (branch : Bool) (res : List (Bytes × Cov)) {fc : Func × Cnt} (hf : fc.1.WF) :
-    Sat CycSites True (finStep branch res fc) fun _ => True := by
-  obtain ⟨f, c⟩ := fc
-  simp only [finStep]
-  apply Sat.bind
-  refine (addLineCount_sat hf c).mono fun ⟨executed, lines⟩ _ => ?_
-  simp only
-  apply Sat.bind
-  have h1 : Sat CycSites True
-      (if executed = true then mergeLines ((get? res f.fileName).getD {}).lines lines
-       else ok (mergeZeroLines ((get? res f.fileName).getD {}).lines lines)) fun _ => True := by
-    split
-    · exact (mergeLines_sat _ _).toCyc
-    · trivial
-  refine h1.mono fun ls _ => ?_
-  apply Sat.bind
-  have h2 : Sat CycSites True
-      (if branch = true then
-        addBranches f c.arc executed f.blocks ((get? res f.fileName).getD {}).branches
-       else ok ((get? res f.fileName).getD {}).branches) fun _ => True := by
-    split
-    · exact (addBranches_sat hf _ _ _ _ hf.ids).ofNo
-    · trivial
-  exact h2.mono fun _ _ => trivial
-
-/-- **`finalize` on well-formed functions**: every index is in range; a crash is the known
-overflow or – not excluded – `underflow` in the cycle search -/
-theorem finalize_sat (branch : Bool) {fs : List (Func × Cnt)} (h : ∀ fc ∈ fs, fc.1.WF) :
-    Sat CycSites True (finalize branch fs) fun _ => True := by
-  unfold finalize
-  refine Sat.foldl (Inv := fun _ => True) _ _ trivial ?_
-  intro res fc hfc _
-  exact finStep_sat branch res (h fc hfc)
 
 end Grcov.Gcno
